@@ -165,6 +165,7 @@ fn run_rust(root: &Root, handle: Option<&Handle>, procfs: Option<&ProcfsHandle>,
 }
 
 struct Args {
+    warm_fault: Option<(usize, i32, bool)>,
     deny: Vec<i64>,
     uid: Option<u32>,
     work: PathBuf,
@@ -174,6 +175,7 @@ struct Args {
 
 fn parse_args() -> Args {
     let mut a = Args {
+        warm_fault: None,
         deny: vec![],
         uid: None,
         work: PathBuf::from("/verif/.cache/work"),
@@ -197,6 +199,11 @@ fn parse_args() -> Args {
                 }
             }
             "--uid" => a.uid = Some(it.next().unwrap().parse().unwrap()),
+            "--warm-fault" => {
+                let v = it.next().unwrap();
+                let parts: Vec<&str> = v.split(':').collect();
+                a.warm_fault = Some((parts[0].parse().unwrap(), parts[1].parse().unwrap(), parts.len() > 2));
+            }
             "--work" => a.work = PathBuf::from(it.next().unwrap()),
             _ => pos.push(x),
         }
@@ -209,7 +216,7 @@ fn parse_args() -> Args {
 /// The monitor built from a job's policy.
 struct PolicyMon {
     deny: Vec<i64>,
-    fault: Option<(usize, i32, bool, Option<Vec<String>>)>,
+    fault: Option<(usize, i32, bool, Option<Vec<String>>, usize)>,
     fault_count: usize,
     attacks: Vec<(usize, Vec<Value>)>,
     /// counts only calls matched by `only` when given
@@ -227,6 +234,7 @@ impl PolicyMon {
                 f.get("only").and_then(|o| o.as_array()).map(|o| {
                     o.iter().map(|s| s.as_str().unwrap().to_string()).collect()
                 }),
+                f.get("count").and_then(|c| c.as_u64()).unwrap_or(1) as usize,
             )
         });
         let attacks = policy
@@ -261,7 +269,7 @@ impl PolicyMon {
         if self.deny.contains(&nr) {
             return Verdict::Inject(libc::ENOSYS);
         }
-        if let Some((at, errno, sticky, only)) = &self.fault {
+        if let Some((at, errno, sticky, only, count)) = &self.fault {
             // calls that cannot fail (or whose failure only trips std's debug
             // assertions) are never chosen as the fault site
             let name = sup::sysname(nr);
@@ -275,7 +283,7 @@ impl PolicyMon {
             if counted {
                 let c = self.fault_count;
                 self.fault_count += 1;
-                if c == *at || (*sticky && c > *at) {
+                if (c >= *at && c < *at + *count) || (*sticky && c > *at) {
                     return Verdict::Inject(*errno);
                 }
             }
@@ -574,6 +582,8 @@ fn main() {
     // inside a traced region, so that they see the denied features.
     {
         let deny = args.deny.clone();
+        let warm_fault = args.warm_fault;
+        let mut warm_count = 0usize;
         let warmdir = args.work.join(format!("warm_{}", std::process::id()));
         let _ = std::fs::create_dir_all(&warmdir);
         let _ = std::os::unix::fs::symlink(".", warmdir.join("l"));
@@ -591,18 +601,43 @@ fn main() {
                 let _ = root.rename("/nonexistent-warmup-a", "/nonexistent-warmup-b", RenameFlags::RENAME_NOREPLACE);
                 Ok::<(), String>(())
             },
-            |_i, nr, _a, _ev| {
+            |_i, nr, _a, ev| {
                 if deny.contains(&nr) {
-                    Verdict::Inject(libc::ENOSYS)
-                } else {
-                    Verdict::Execute
+                    return Verdict::Inject(libc::ENOSYS);
                 }
+                // cold-start fault: the n-th fallible call of the first-use initialisation fails
+                if let Some((at, errno, sticky)) = warm_fault {
+                    let name = sup::sysname(nr);
+                    let never = matches!(name, "gettid" | "geteuid" | "close")
+                        || (name == "fcntl" && ev["cmd"].as_u64() == Some(1));
+                    // sticky = descriptor exhaustion: only descriptor-creating calls fail
+                    let eligible = !sticky
+                        || matches!(name, "openat" | "openat2" | "fsopen" | "fsmount" | "open_tree")
+                        || (name == "fcntl" && ev["cmd"].as_u64() == Some(1030));
+                    if !never && eligible {
+                        let c = warm_count;
+                        warm_count += 1;
+                        if c == at || (sticky && c > at) {
+                            return Verdict::Inject(errno);
+                        }
+                    }
+                }
+                Verdict::Execute
             },
         );
         let r = match res {
             Ok(Ok(())) => json!({"unit": true}),
             Ok(Err(e)) => json!({"setup_err": e}),
-            Err(_) => json!({"panic": "warmup"}),
+            Err(p) => {
+                let msg = if let Some(s) = p.downcast_ref::<String>() {
+                    s.clone()
+                } else if let Some(s) = p.downcast_ref::<&str>() {
+                    s.to_string()
+                } else {
+                    "<panic>".to_string()
+                };
+                json!({"panic": msg})
+            }
         };
         let _ = std::fs::remove_dir_all(&warmdir);
         writeln!(outf, "{}", json!({"id": "warmup", "res": r, "trace": trace.events,
